@@ -55,8 +55,12 @@ def reuse_session(rng):
     for k in range(rng.randint(3, 9)):          # more than the queue holds, too
         if rng.random() < 0.2:
             d = rng.choice([i for i in range(len(tree)) if i != s])
-        n = rng.choice([0, 1, 8, 24, 24, 25, 60])
-        ops.append(f"{names[s]} writeid {gen_net.addr_of(tree[d])} {typ} {rbytes(rng, n)} {fid}")
+        # every message differs from the others in its first byte: a frame that is byte-identical to the one the
+        # destination's radio accepted last (same header, same body) and happens to carry the same 2-bit PID is
+        # acknowledged and DISCARDED by the radio itself (Enhanced ShockBurst duplicate rule, §0.4b) - nothing the
+        # network layer could deliver
+        n = rng.choice([0, 7, 23, 23, 24, 59])
+        ops.append(f"{names[s]} writeid {gen_net.addr_of(tree[d])} {typ} {bytes([k]).hex()}{rbytes(rng, n).replace('-', '')} {fid}")
         ops += [f"{names[rng.randrange(len(tree))]} update", f"{names[rng.randrange(len(tree))]} update"]
         for i in range(len(tree)):
             ops += [f"{names[i]} read", f"{names[i]} read"]
